@@ -304,10 +304,15 @@ def main(tier, root, budget_s=None, replay=None, prop=PROP, gen=None, extra=None
         reported = 0
         by_key = collections.Counter()
         printed_known = set()
+        t_report = time.monotonic()
+        skipped_groups = 0
         for g, lst in groups.items():
             # minimise up to 3 representatives per (class, op) group to discover distinct causes
             seen_causes = set()
-            for job, f, hs, idx in lst[:3]:
+            if reported >= 12 or (reported >= 3 and time.monotonic() - t_report > 600):
+                skipped_groups += 1       # enough replay files for a verdict; the rest is counted in the evidence
+                continue
+            for job, f, hs, idx in lst[:3 if reported < 6 else 1]:
                 lane = 0
                 if pool.seeds[lane] != hs and hs:
                     pool.reseed(lane, hs)
@@ -346,6 +351,8 @@ def main(tier, root, budget_s=None, replay=None, prop=PROP, gen=None, extra=None
                 reported += 1
                 print('violation %s: %s' % (key, mf['message'][:400]))
                 print('VIOLATION property=%s replay=%s' % (prop, path))
+        if skipped_groups:
+            print('note: %d further (class, op) groups of findings were not minimised (see findings_by_key / raw counts in the evidence)' % skipped_groups)
     finally:
         pool.close()
 
